@@ -27,6 +27,8 @@ def main():
         subprocess.run(["git", "-C", "/repo", "worktree", "add", "-f", "--detach", wt, "HEAD"], check=True, stdout=subprocess.DEVNULL, stderr=subprocess.DEVNULL)
         r = subprocess.run(["git", "-C", wt, "apply", os.path.abspath(a.patch)], stdout=subprocess.PIPE, stderr=subprocess.STDOUT, text=True)
         if r.returncode != 0:
+            r = subprocess.run(["git", "-C", wt, "apply", "--3way", os.path.abspath(a.patch)], stdout=subprocess.PIPE, stderr=subprocess.STDOUT, text=True)
+        if r.returncode != 0:
             print("PATCH-DOES-NOT-APPLY", r.stdout)
             return 3
         env = dict(os.environ)
